@@ -71,6 +71,26 @@ def run(tier, replay):
             V.violation("password callback after an earlier login (user=%s pw=%s addr=%s): user=%s pw=%s addr=%s granted=%s, Ref=%s" %
                         (b["first"]["user"], b["first"]["pw"], b["first"]["addr"], b["case"]["user"], b["case"]["pw"], b["case"]["addr"],
                          b["granted"], b["case"]["ref"]), b)
+        # the same decisions where they are enforced: real SSH logins to the real server, attempts and Ref from TLC
+        wirecases = vlib.read_ndjson(os.path.join(wd, "c09_wirecases.ndjson"))
+        wj, wo = os.path.join(wd, "w.json"), os.path.join(wd, "wo.json")
+        json.dump(wirecases, open(wj, "w"))
+        ovw = {"internal/server/vcommon_test.go": ("common/vcommon_test.go", "server"),
+               "internal/server/c14_test.go": "server/c14_test.go", "internal/server/c09_wire_test.go": "server/c09_wire_test.go"}
+        rc, out = vlib.go_test(wd, "./internal/server", ovw, "TestC09Wire", env={"VERIF_CASES": wj, "VERIF_OUT": wo}, timeout=900)
+        if rc != 0 or not os.path.exists(wo):
+            raise vlib.Inconclusive("SSH login harness failed\n" + out[-2500:])
+        wres = json.load(open(wo))
+        evals += wres["evaluations"]
+        for b in wres["bad"] or []:
+            c = b["case"]
+            if b["granted"] and not c["ref"]:
+                V.violation("SSH login granted: user=%s method=%s credential=%s (Ref: refused)" % (c["user"], c["method"], c["cred"]), b)
+            elif b["note"] and b["granted"] == c["ref"]:
+                V.violation("SSH login user=%s: %s" % (c["user"], b["note"]), b)
+            else:
+                V.violation("SSH login refused: user=%s method=%s credential=%s (Ref: granted) %s" % (c["user"], c["method"], c["cred"], b["note"][:120]), b)
+        log("SSH logins to the real server: %d attempts (user x method x credential from TLC), %d differ from Ref" % (wres["evaluations"], len(wres["bad"] or [])))
         co = os.path.join(wd, "conc.json")
         rc, out = vlib.go_test(wd, "./internal/ssh/server", ov, "TestC09Concurrent", env={"VERIF_OUT": co, "VERIF_N": 150 if tier == "quick" else 3000}, timeout=1200)
         if rc != 0 or not os.path.exists(co):
